@@ -304,10 +304,15 @@ static bool run_path(const Cfg& cfg, const std::vector<Step>& path, unsigned lon
   acetime_t nextVal = 500000000;
   bool consulted_last = false;
   bool usedSpecial = false, specialFlip = false;
+  // independent model of "keeps time": value and true time of the last setting, and the longest gap between loop() calls
+  // since then. While every gap is one the clock can bridge (<= 64000 ms here) the reading must be exactly
+  // value + floor(elapsed / 1000); the shadow clock runs the same getNow() code and cannot show a defect in it.
+  int64_t modelSetMs = (cfg.wiring == 3) ? 0 : -1; acetime_t modelSetVal = (cfg.wiring == 3) ? 123456789 : kInv; uint32_t modelMaxGap = 0;
   for (size_t i = 0; i < path.size(); i++) {
     const Step& st = path[i];
     g_true_ms += st.adv;
     if (st.adv > maxAdv) maxAdv = st.adv;
+    if (st.adv > modelMaxGap) modelMaxGap = st.adv;
     acetime_t curReading = shadow.getNow();      // what the clock reads now (shadow polled at the same instants)
     ref.ready = st.outcome != 0;
     if (st.outcome == 1) {
@@ -354,6 +359,7 @@ static bool run_path(const Cfg& cfg, const std::vector<Step>& path, unsigned lon
       bool changes = (curReading != readv);
       shadow.setNow(readv);
       lastValid = readv;
+      if (changes || modelSetMs < 0) { modelSetMs = (int64_t) g_true_ms; modelSetVal = readv; modelMaxGap = 0; }
       if (sys.getNow() != readv) { key = "c14:valid-not-applied"; what = "after consuming a valid response the clock does not read the reference value"; }
       else if (sys.getLastSyncTime() != readv) { key = "c14:lastsync-not-updated"; what = "getLastSyncTime != applied value"; }
       if (cfg.wiring == 1) {
@@ -379,6 +385,11 @@ static bool run_path(const Cfg& cfg, const std::vector<Step>& path, unsigned lon
     bool observe = (i + 1 == path.size()) || (path.size() > 12 && ((i * 2654435761u + path.size()) % 7 == 0));
     if (observe) CNT.add("c14.clock_reads");
     if (key.empty() && observe && sys.getNow() != shadow.getNow()) { key = "c14:time-corrupted"; what = "clock trajectory differs from one that received only the valid responses"; }
+    if (key.empty() && observe && modelSetMs >= 0 && modelMaxGap <= 64000) {
+      CNT.add("c14.exact_time_checks");
+      acetime_t want = (acetime_t) (modelSetVal + ((int64_t) g_true_ms - modelSetMs) / 1000);
+      if (sys.getNow() != want) { key = "c14:time-not-kept"; what = "between settings, with every gap between loop() calls one the clock can bridge, the reading is not value + floor(elapsed/1000)"; }
+    }
     if (key.empty() && sys.isInit() != shadow.isInit()) { key = "c14:isInit-wrong"; what = "isInit differs from shadow"; }
     // failure detection for the model: outstanding request failed if an invalid response was
     // consumed, or readiness was consulted negative at/after the timeout
@@ -431,7 +442,8 @@ static bool run_path(const Cfg& cfg, const std::vector<Step>& path, unsigned lon
 }
 
 static std::vector<uint32_t> advances_for(const Cfg& c) {
-  std::vector<uint32_t> a = {1, 999, (uint32_t) c.TO + 1, (uint32_t) c.I * 1000, (uint32_t) c.I * 2000 + 1, (uint32_t) c.S * 1000, 65000};
+  // 64000: a gap in the upper half of what the 16-bit millisecond bookkeeping allows (32768..64536 ms)
+  std::vector<uint32_t> a = {1, 999, (uint32_t) c.TO + 1, (uint32_t) c.I * 1000, (uint32_t) c.I * 2000 + 1, (uint32_t) c.S * 1000, 64000};
   if (c.TO > 1) a.push_back(c.TO - 1);
   // dedupe, drop zeros
   std::vector<uint32_t> o;
